@@ -125,12 +125,16 @@ def generate(seed, index, tier):
             if cands:
                 pi, ci, gi, ai = ch.choice(cands)
                 case["twin"] = [pi, ci, gi, ai, gp.gen_number(ch, mag)]
+        if ch.coin(0.25):
+            case["obj_tail"] = {"kind": ch.choice(["Close", "Close", "Line", "QuadraticBezier", "CubicBezier"]), "nums": [float(_num(ch)) for _ in range(8)], "form": ch.choice(["add", "iadd", "append"]), "then": ch.coin(0.5)}
     elif mode == "pathpath":
         k = ch.int(1, len(cmds) - 1)
         a = cmds[:k]
         b = gp.gen_cmds(ch, ch.int(1, 5), mag=mag, leading_move=True)
         case["pieces"] = [a, b]
         case["coincide"] = ch.coin(0.3)
+        # the right operand as a subpath view of its path (a path like any other to the left operand)
+        case["as_view"] = ch.int(0, 3) if ch.coin(0.25) else None
         case["styles"] = [ch.int(0, 63), ch.int(0, 63)]
         case["forms"] = [ch.choice(["add", "iadd"])]
         case["first"] = "path"
@@ -320,6 +324,44 @@ def _execute_once(case, se, out, trace, se_ref, label=""):
                     if not ob.close_num(lp, lr, 1e-9, 0.0):
                         raise V("refinement-length", [la, fb, form], "length() is %r after %s of %r (an observer measured the path before the append); the one-shot path measures %r" % (lp, form, piece, lr))
                     out.count("probe:length-after-append-compared")
+        tail = case.get("obj_tail")
+        if tail and isinstance(p, se.Path) and len(p) and p.current_point is not None:
+            # one more piece arrives as a segment object taken from elsewhere (it states the start, and a close the
+            # end, of the outline it came from): appended, it continues this path like its command would
+            n = tail["nums"]
+            F, G = se.Point(n[0], n[1]), se.Point(n[2], n[3])
+            if tail["kind"] == "Close":
+                seg, text = se.Close(F, G), "z"
+            elif tail["kind"] == "Line":
+                seg, text = se.Line(F, G), "L %r,%r" % (n[2], n[3])
+            elif tail["kind"] == "QuadraticBezier":
+                seg, text = se.QuadraticBezier(F, se.Point(n[4], n[5]), G), "Q %r,%r %r,%r" % (n[4], n[5], n[2], n[3])
+            else:
+                seg, text = se.CubicBezier(F, se.Point(n[4], n[5]), se.Point(n[6], n[7]), G), "C %r,%r %r,%r %r,%r" % (n[4], n[5], n[6], n[7], n[2], n[3])
+            whole = " ".join(pieces) + " " + text + (" l 5,5" if tail["then"] else "")
+            try:
+                ref = se_ref.Path(whole)
+            except Exception:
+                out.count("skip:reference-raises")
+                return
+            form = tail["form"]
+            out.count("op:object-" + form)
+            try:
+                if form == "add":
+                    p = p + seg
+                elif form == "iadd":
+                    p += seg
+                else:
+                    p.append(seg)
+                if tail["then"]:
+                    p += "l 5,5"
+            except Exception as e:
+                raise V("append-raises", [type(e).__name__, core.exc_sig(e)[1], "object", tail["kind"], form], "%r %s %s(...) raised %r" % (" ".join(pieces), form, tail["kind"], e))
+            ok, msg = ob.snaps_equal(_snap(p), _snap(ref), rel=1e-9)
+            if not ok:
+                raise V("refinement", ["object", tail["kind"], form], "%r, then a %s object from another outline by %s%s: %s ; incremental=%r one-shot of %r=%r" % (" ".join(pieces), tail["kind"], form, " and 'l 5,5'" if tail["then"] else "", msg, _d(p), whole, _d(ref)))
+            trace.ev("object-append", form, tail["kind"], ob.kinds(p))
+            out.count("probe:object-append-compared")
         return
     if mode == "pathpath":
         if case.get("coincide") and isinstance(p, se.Path) and p.current_point is not None and case["pieces"][1][0]["c"] in "Mm":
@@ -335,9 +377,18 @@ def _execute_once(case, se, out, trace, se_ref, label=""):
         except Exception:
             out.count("skip:second-path-raises")
             return
+        if case.get("as_view") is not None:
+            try:
+                n_sub = q.count_subpaths()
+                view = q.subpath(case["as_view"] % n_sub) if n_sub else None
+            except Exception:
+                view = None
+            if view is not None and len(view) and type(view[0]).__name__ == "Move":
+                q = view
+                out.count("probe:right-operand-is-a-subpath-view")
         form = case["forms"][0]
         out.count("op:pathpath-" + form)
-        out.state("pathpath|%s|%s|%s" % (ob.kinds(p)[-1:], ob.kinds(q)[:2], form))
+        out.state("pathpath|%s|%s|%s" % (ob.kinds(p)[-1:], ob.kinds(list(q))[:2], form))
         sp, sq = _snap(p), _snap(q)
         old = p
         try:
